@@ -3,7 +3,7 @@
 988-test baseline still passes with the patch.  Records the outcome in seeded/<id>/meta.json ("confirmed")."""
 import json, os, subprocess, sys
 V = os.path.dirname(os.path.dirname(os.path.abspath(__file__)))
-ids = sys.argv[1:] or sorted(os.listdir(os.path.join(V, "seeded")))
+ids = sys.argv[1:] or sorted(x for x in os.listdir(os.path.join(V, "seeded")) if os.path.isdir(os.path.join(V, "seeded", x)))
 wt = "/tmp/seedconfirm-%d" % os.getpid()
 subprocess.run(["git", "-C", "/repo", "worktree", "add", "-q", "--detach", wt, "HEAD"], check=True)
 try:
